@@ -48,6 +48,8 @@ def gen_presentation(rng, n, canonical=False, path='LIB'):
 
 def gen_spec(prop, rng, tier):
     wl = gen.gen_workload(rng, weights=[12, 40, 20, 4, 10, 9, 5])
+    if rng.random() < 0.04:
+        wl = gen.gen_workload(rng, profile=rng.choice(['many', 'boundary', 'manylines']))
     # C04's premise: names and residues; keep names free of blanks and distinct
     n = len(wl['seqs'])
     fasta_only = rng.random() < 0.12
